@@ -333,14 +333,14 @@ def _compositions(n: int) -> Iterator[tuple[int, ...]]:
             yield (first,) + rest
 
 
-def _units(n: int, d: int) -> Iterator[Any]:
+def _units(n: int, d: int, syms: tuple[str, ...] = LEAF_SYMS) -> Iterator[Any]:
     if n == 1:
-        for s in LEAF_SYMS:
+        for s in syms:
             yield ["leaf", s]
     if d > 0:
-        for u in _units(n, d - 1):
+        for u in _units(n, d - 1, syms):
             yield ["not", u]
-        for e in _exprs(n, d - 1):
+        for e in _exprs(n, d - 1, syms):
             yield ["par", e]
 
 
@@ -353,10 +353,10 @@ def _product(seqs: list[list[Any]]) -> Iterator[list[Any]]:
             yield [head] + tail
 
 
-def _exprs(n: int, d: int) -> Iterator[Any]:
-    """Every expression with exactly ``n`` leaves and not/paren nesting depth <= d."""
+def _exprs(n: int, d: int, syms: tuple[str, ...] = LEAF_SYMS) -> Iterator[Any]:
+    """Every expression with exactly ``n`` leaves (drawn from ``syms``) and not/paren nesting depth <= d."""
     for comp in _compositions(n):
-        pools = [list(_units(k, d)) for k in comp]
+        pools = [list(_units(k, d, syms)) for k in comp]
         nops = len(comp) - 1
         for units in _product(pools):
             for bits in range(1 << nops):
